@@ -111,7 +111,7 @@ def write_toml(case, base, root, perm_seed):
     random.Random(perm_seed).shuffle(plats)
     with open(os.path.join(root, "analysis.toml"), "w") as f:
         for p in plats:
-            f.write(f"[platform.{p}]\ncommands = \"{os.path.join(base, 'dbs', p + '.json')}\"\n\n")
+            f.write(f"[platform.\"{p}\"]\ncommands = \"{os.path.join(base, 'dbs', forest.dbname(p))}\"\n\n")
     return plats
 
 
@@ -143,7 +143,7 @@ def one_run(case, base, root, hashseed, shuffle, do_clustering):
     # coverage export for the first platform (sorted)
     p0 = sorted({t["platform"] for t in case["tus"]})[0]
     covp = os.path.join(base, "cov.json")
-    rc, out2, err2 = cli.run("cbi-cov", ["compute", "-S", root, "-o", covp, os.path.join(base, "dbs", p0 + ".json")], root,
+    rc, out2, err2 = cli.run("cbi-cov", ["compute", "-S", root, "-o", covp, os.path.join(base, "dbs", forest.dbname(p0))], root,
                              launch=({"shuffle": shuffle} if shuffle is not None else {}), hashseed=hashseed)
     if rc != 0:
         return {"error": f"cbi-cov rc={rc}: {err2[-300:]}"}
